@@ -54,7 +54,7 @@ func init() {
 			"the sent set is retried before the buffered messages of the same partition and the bounce state (currentRetries / closing) is set on the same path (C02.sent-before-buffered); parked buffers are flushed in index order and cleared, and highWatermark is written only by newHighWatermark/flushRetryBuffers (C02.flush); " +
 			"one produce request in flight per broker worker: unbuffered bridge, synchronous Produce, tabled senders on brokerProducer.output (C02.single-flight); the retry queue is used strictly FIFO (C02.fifo). " +
 			"NOT covered: the interleaving argument itself, reordering with Retry.Max=0 / abandoned brokers (value- and schedule-dependent).",
-		Rules: []func(*Ctx){c02RouteOnce, c02SentBeforeBuffered, c02Recheck, c02Flush, c02SingleFlight, c02Fifo},
+		Rules: []func(*Ctx){c02RouteOnce, c02SentBeforeBuffered, c02Recheck, c02Flush, c02RetryStateKept, c02SingleFlight, c02Fifo},
 	})
 }
 
@@ -241,7 +241,7 @@ func c02Flush(c *Ctx) {
 	p := c.P
 	rule := "C02.flush"
 	c.Doc(rule, "flushRetryBuffers: each level's parked buffer is sent in index order to brokerProducer.input and then cleared (buf = nil follows the loop on every path); pp.highWatermark is stored only by newHighWatermark and flushRetryBuffers")
-	c.Floor(rule, 3)
+	c.Floor(rule, 4)
 	fn := c.NeedFn(rule, "partitionProducer.flushRetryBuffers")
 	if fn == nil {
 		return
@@ -289,6 +289,35 @@ func c02Flush(c *Ctx) {
 	}
 	if !found {
 		c.Unresolved(rule, "range over retryState[..].buf sending to brokerProducer.input")
+	}
+	// the other way a parked buffer is used up: handed to a function as a whole (returnErrors when no leader can be
+	// found).  The same clearing must follow, or the messages — which have had their final event — are flushed
+	// again with the next level.
+	for _, s := range fi.Find(func(it Item) bool {
+		cc, ok := callCommon(it)
+		if !ok {
+			return false
+		}
+		if _, isB := cc.Value.(*ssa.Builtin); isB {
+			return false
+		}
+		for _, a := range cc.Args {
+			if FieldLoad("partitionRetryState.buf")(strip(a)) {
+				return true
+			}
+		}
+		return false
+	}) {
+		var reg *Region
+		if l := fi.InnermostLoop(s.In.Block()); l != nil {
+			reg = fi.Iteration(l)
+		} else {
+			reg = WholeFn(fn)
+		}
+		esc, path := reg.From(s.After()).Escape(StoreTo(IsNil(), "partitionRetryState.buf"))
+		cc, _ := callCommon(s)
+		c.Check(!esc, rule, fn, "clear-after-handing-over:"+p.CalleeName(cc), s.In, "a parked buffer handed to "+p.CalleeName(cc)+" is cleared before the next level / return on every path",
+			"a parked buffer handed to "+p.CalleeName(cc)+" is not cleared on every path: its messages have already had their final event and are flushed again with the next level (a second event for the same message, inFlight released twice)", path)
 	}
 	// who may store highWatermark
 	allowed := map[string]bool{"partitionProducer.newHighWatermark": true, "partitionProducer.flushRetryBuffers": true}
@@ -517,6 +546,34 @@ func c02Recheck(c *Ctx) {
 				g, path := reg.Guarded(a, clear(Same(msg)))
 				c.Check(g, rule, fn, "needsRetry-before-add", a.Instr(), "a message is buffered only after needsRetry(msg) == nil", "a message can be buffered without the needsRetry test: it overtakes the bounced messages of its partition", path)
 			}
+		}
+	}
+}
+
+// C02.retry-state-kept: the per-topic map of bp.currentRetries is created only when missing.
+func c02RetryStateKept(c *Ctx) {
+	p := c.P
+	rule := "C02.retry-state-kept"
+	c.Doc(rule, "bp.currentRetries[topic] (the per-topic map of partitions that are being retried) is assigned only where the lookup bp.currentRetries[topic] == nil has just been established for the same key: replacing an existing map would wipe the retrying mark of the topic's other partitions, whose later messages would then overtake the ones being retried")
+	c.Floor(rule, 2)
+	outer := FieldLoad("brokerProducer.currentRetries")
+	for _, fn := range p.Fns {
+		if fn.Pkg != p.Sarama {
+			continue
+		}
+		fi := Info(fn)
+		for _, s := range fi.Find(MapUpdateOn(outer)) {
+			mu := s.In.(*ssa.MapUpdate)
+			missing := Cmp{token.EQL, func(v ssa.Value) bool {
+				lk, ok := strip(v).(*ssa.Lookup)
+				return ok && outer(lk.X) && samePath(lk.Index, mu.Key)
+			}, IsNil()}
+			root := fn
+			for root.Parent() != nil && iifeCall(root) != nil {
+				root = root.Parent()
+			}
+			ok, path := WholeFn(root).Guarded(s, missing)
+			c.Check(ok, rule, fn, "create-only-if-missing", mu, "the per-topic map is created only where it is missing", "the per-topic map of bp.currentRetries is replaced without testing that it is missing: the retrying marks of the topic's other partitions are lost and their later messages overtake the retried ones", path)
 		}
 	}
 }
